@@ -589,6 +589,14 @@ func c03Transition(c *Ctx) {
 			bad("transitionTo must compare the current state with the target")
 			continue
 		}
+		// the state change and its notifications are one critical section of the caller's lock: transitionTo itself
+		// neither releases nor (re)acquires the breaker's mutex
+		if lk := eventsWhere(p, func(e *Event) bool {
+			return (e.Kind == EvCall || e.Kind == EvDefer) && e.FnTerm == nil && (e.Method == "Unlock" || e.Method == "Lock") && e.Recv != nil && rootOf(e.Recv) == cb
+		}); len(lk) != 0 {
+			bad("transitionTo releases or re-acquires the breaker's mutex around the notifications: a concurrent transition can then interleave, so listeners see events out of order (the events no longer form a connected path and the specific and generic listeners disagree)")
+			continue
+		}
 		same := p.State.Facts.Truth(ts, ts.Cmp("==", cur, newState))
 		if same == triT {
 			seen["noop"] = true
